@@ -212,7 +212,7 @@ def stage_and_check(run, AH, truth, flags, tracers, chunk, n_chunks, desc):
         sim_params['halo_lc'] = True
     if desc.get('force_mt'):
         sim_params['force_mt'] = True
-    HOD = dict(tracer_flags={t: (t in tracers) for t in ('LRG', 'ELG', 'QSO')}, want_rsd=True, LRG_params={}, ELG_params={}, QSO_params={}, **flags)
+    HOD = dict(tracer_flags={t: (t in tracers) for t in ('LRG', 'ELG', 'QSO')}, want_rsd=bool(desc.get('case', 0) % 3 != 1), LRG_params={}, ELG_params={}, QSO_params={}, **flags)
     run.progress(desc)
     run.ev()
     core.poison_prime()
